@@ -1594,6 +1594,12 @@ callf:
 				return lerr
 			}
 			fun, args = extractMarkTailRec(r)
+			// The frame is reused for the next turn, which starts like a
+			// fresh call: not yet in its terminal expression.  Left set from
+			// the previous turn, the flag made a self call in the tail of a
+			// NON-last body form look like a tail call; its mark was then
+			// discarded by the body loop and the call silently never ran.
+			top.Terminal = false
 			goto callf
 		}
 	}
